@@ -45,8 +45,18 @@ def oracle_cases(tier, rng):
                             yield dict(dir='inv', kind='2d', wave=wn, mode=mode, J=J, H=H, W=W, axes=[(H, L), (W, L)], subset=list(s), seed=int(rng.integers(1 << 30)))
 
 
+    # separate column / row wavelets (4-tuple): equal and unequal lengths
+    for (wc, wr) in [('db4', 'sym4'), ('bior2.2', 'bior1.3'), ('db2', 'db3'), ('haar', 'db2')]:
+        Lc, Lr = pywt.Wavelet(wc).dec_len, pywt.Wavelet(wr).dec_len
+        for mode in ('zero', 'periodization'):
+            for (H, W) in [(2 * Lc, 2 * Lr), (2 * Lc + 2, 2 * Lr + 4)]:
+                yield dict(dir='fwd', kind='2d', wave=wc, wave_row=wr, mode=mode, J=1, H=H, W=W, axes=[(H, Lc), (W, Lr)], subset=None, seed=int(rng.integers(1 << 30)))
+                for s in ([1, 1], [0, 1], [1, 0]):
+                    yield dict(dir='inv', kind='2d', wave=wc, wave_row=wr, mode=mode, J=1, H=H, W=W, axes=[(H, Lc), (W, Lr)], subset=s, seed=int(rng.integers(1 << 30)))
+
+
 def strat_key(cfg):
-    return '%s/%s/%s/J%d/%s' % (cfg['dir'], cfg['kind'], cfg['mode'], cfg['J'], 'all' if cfg['subset'] is None else ''.join(map(str, cfg['subset'])))
+    return '%s/%s%s/%s/J%d/%s' % (cfg['dir'], cfg['kind'], '-mixed' if cfg.get('wave_row') else '', cfg['mode'], cfg['J'], 'all' if cfg['subset'] is None else ''.join(map(str, cfg['subset'])))
 
 
 def flat(ts):
@@ -60,8 +70,9 @@ def oracle_run(cfg):
     mode, J, wn = cfg['mode'], cfg['J'], cfg['wave']
     d1 = cfg['kind'] == '1d'
     shp = (1, 1, cfg['N']) if d1 else (1, 1, cfg['H'], cfg['W'])
-    fwd = (DWT1DForward if d1 else DWTForward)(J=J, wave=wn, mode=mode)
-    inv = (DWT1DInverse if d1 else DWTInverse)(wave=wn, mode=mode)
+    from props import c01
+    fwd = (DWT1DForward if d1 else DWTForward)(J=J, wave=wn if d1 else c01.wave_arg(cfg, 'dec'), mode=mode)
+    inv = (DWT1DInverse if d1 else DWTInverse)(wave=wn if d1 else c01.wave_arg(cfg, 'rec'), mode=mode)
     try:
         if cfg['dir'] == 'fwd':
             n_in = int(np.prod(shp))
